@@ -272,6 +272,8 @@ pub fn run(tier: &str) -> Result<Report, String> {
         let n_deep = deep.len();
         deep.extend(templates(&Names::user(&["a".to_string(), "b".to_string()]), true, if tier == "quick" { 3 } else { 8 }));
         deep.extend(duplicate_templates(1, if tier == "quick" { 4 } else { 5 }, false, true));
+        // nests of 4..12 quantifiers: canonical names var0..var11 (var1 is a prefix of var10, var11)
+        deep.extend(crate::formulas::deep_nests(&Names::user(&["a".to_string(), "b".to_string()]), 12));
         rep.set("deep_tiny_alphabet_formulae", json!(n_deep));
         rep.set("template_formulae", json!(deep.len() - n_deep));
         for f in &deep {
@@ -285,6 +287,41 @@ pub fn run(tier: &str) -> Result<Report, String> {
                 subs.insert(s.clone());
             }
         }
+    }
+    // identifier shapes: the canoniser works on the characters of the stored text, so names that end in
+    // / consist of the quantifier symbols (p53, HIV, V, 3x, ...), names of canonical variables (var0) and
+    // such labels, in every operand position
+    {
+        let names = ["p53", "HIV", "V", "3x", "a3", "x", "V3", "EXa", "A", "E", "var0", "var1", "in"];
+        let labels = ["3", "V", "d3", "dV", "var0", "x"];
+        let shapes = [
+            "(N & a)", "(a & N)", "(N EU {x})", "({x} AW N)", "(~ N)", "(N => (AX N))", "(!{x}: (N & {x}))", "(!{x}: ({x} | N))", "(3{x} in %L%: (@{x}: (N ^ {x})))",
+            "(%L% & N)", "(N <=> %L%)", "(V{x} in %L%: (N AU {x}))", "(!{x}: (!{xx}: ((N & {xx}) EW {x})))",
+        ];
+        let mut n_shapes = 0u64;
+        for sh in shapes {
+            for n in names {
+                for l in labels {
+                    if !sh.contains('L') && l != labels[0] {
+                        continue;
+                    }
+                    let text = sh.replace('N', n).replace('L', l);
+                    match rp::parse_str(&text, true) {
+                        Ok(t) => {
+                            n_shapes += 1;
+                            let mut v = vec![];
+                            t.subtrees(&mut v);
+                            for x in v {
+                                subs.insert(x.clone());
+                            }
+                        }
+                        // a few names are no propositions by the grammar (a lone V or 3): not part of the family
+                        Err(_) => {}
+                    }
+                }
+            }
+        }
+        rep.set("identifier_shape_formulae", json!(n_shapes));
     }
     formulas.sort();
     formulas.dedup();
@@ -427,6 +464,6 @@ pub fn run(tier: &str) -> Result<Report, String> {
     rep.violations.extend(lb.into_iter().take(40));
     rep.sample(json!({"subtree": "(AX {xx})", "canonical": get_canonical("(AX {xx})".to_string())}));
     rep.sample(json!({"marking_list": [pool[1].render(), pool[5].render()]}));
-    rep.rule = format!("every distinct sub-tree of every well-scoped, preprocessed formula with <= {s_max} nodes (plain alphabet) / <= 4 nodes (with wild-cards and two domain labels), of every closed formula with <= 7 (thorough 8) nodes over the tiny alphabet {{a, AX, &, 3, @}} (sibling quantifiers sharing a depth name), and of the template families: canonical form vs independent normal form as a partition (= all pairs), explicit all-pairs structural alpha-equivalence on up to {cap} sub-trees, renaming total/injective/consistent on free variables, idempotence; duplicate marking of every single formula and of every list of <= 3 formulae over a {n}-formula pool (collision alphabet + jump/domain shapes) against an independent occurrence count with domains of free variables; distinct_nontrivial = number of alpha-equivalence classes");
+    rep.rule = format!("every distinct sub-tree of every well-scoped, preprocessed formula with <= {s_max} nodes (plain alphabet) / <= 4 nodes (with wild-cards and two domain labels), of every closed formula with <= 7 (thorough 8) nodes over the tiny alphabet {{a, AX, &, 3, @}} (sibling quantifiers sharing a depth name), of the template families and of 13 operand-position shapes x 13 identifier shapes (p53, HIV, V, 3x, var0, ...) x 6 label shapes: canonical form vs independent normal form as a partition (= all pairs), explicit all-pairs structural alpha-equivalence on up to {cap} sub-trees, renaming total/injective/consistent on free variables, idempotence; duplicate marking of every single formula and of every list of <= 3 formulae over a {n}-formula pool (collision alphabet + jump/domain shapes) against an independent occurrence count with domains of free variables; distinct_nontrivial = number of alpha-equivalence classes");
     Ok(rep)
 }
